@@ -100,7 +100,9 @@ def make_setup(rng, leaderless=0.0):
         small = True
     rng.shuffle(calls)
     return {"spec": spec, "calls": calls, "assigned": assigned, "storage": storage, "fallback": fallback, "small": small,
-            "client_storage_differs": rng.random() < 0.35}
+            "client_storage_differs": rng.random() < 0.35,
+            # the client's retry setting at its extreme: 0 ("do not retry") still means one attempt
+            "retries_off": rng.random() < 0.25}
 
 
 def rand_history(rng, su, n, faults=True):
@@ -148,6 +150,8 @@ def lifetime_start(su, source, hosts):
         if st and su.get("client_storage_differs"):
             # the client handed to the builder was configured with the OTHER storage: the builder's explicit choice is in force
             ops.append(T("set_group_offset_storage", [1 - st[-1]]))
+        if su.get("retries_off"):
+            ops.append(T("set_retry_max_attempts", [0]))
         ops.append(T("consumer_build", [T("from_client"), su["calls"]]))
     for tp in su["assigned"]:
         ops.append(T("consumer_op", [T("last_consumed_message", [tp[0], tp[1]])]))
